@@ -35,6 +35,8 @@ def gen_cases(tier: str, seed: int) -> list[dict]:
 
 def _delivery(case: dict) -> dict:
     spec = c05._spec_for(case["spec_i"], case["seed"])
+    if case["spec_i"] % 20 == 19:
+        spec = specs.restart_forward_jump()
     rng = random.Random(case["seed"] * 29 + case["spec_i"])
     obs: Counter = Counter()
     edges: Counter = Counter()
@@ -47,7 +49,7 @@ def _delivery(case: dict) -> dict:
         if m == 1:
             inj.append({"at": rng.randrange(1, max(2, ref.steps)), "do": "cancel"})
         elif m == 2:
-            inj.append({"at": ref.steps + rng.randrange(0, 40), "do": "restart_stage", "ref": rng.choice(refs)})
+            inj.append({"at": ref.steps + rng.randrange(0, 40), "do": "restart_stage", "ref": refs[0] if spec["name"] == "restart_forward_jump" else rng.choice(refs)})
             if rng.random() < 0.5:
                 inj.append({"at": rng.randrange(1, max(2, ref.steps)), "do": "restart_stage", "ref": rng.choice(refs)})
         elif m == 3:
